@@ -4,17 +4,20 @@
 (* written); `lead` records the P-clauses that outcome fails.  api-level cases   *)
 (* (a real contiguous frame) are those with at most one non-N day.               *)
 EXTENDS ClockDefs
-CONSTANTS MaxDays, ZoneKinds      \* ZoneKinds: zone class -> set of day kinds
+CONSTANTS MaxDays, ZoneKinds,     \* ZoneKinds: zone class -> set of day kinds
+          Twin                    \* zone class -> a zone class with the same UTC offsets and transition dates but another hour
 VARIABLES in, out, pc, lead
 vars == <<in, out, pc, lead>>
 NonN(days) == Cardinality({d \in 1..Len(days) : days[d].k # "N"})
 Init ==
-  /\ \E z \in DOMAIN ZoneKinds, n \in 1..MaxDays, lvl \in {"fn", "api"}, o \in {"present", "blank", "absent"} :
+  /\ \E z \in DOMAIN ZoneKinds, n \in 1..MaxDays, lvl \in {"fn", "api"}, o \in {"present", "blank", "absent"}, pr \in {"none", "twin"} :
        \E ds \in [1..n -> ZoneKinds[z]] :
+          /\ (pr = "twin" => z \in DOMAIN Twin)
           /\ (lvl = "api" => NonN(ds) <= 1)
           /\ (lvl = "fn" => o = "present")
           /\ \A d \in 1..(n - 1) : ds[d].k = "N" \/ ds[d + 1].k = "N"      \* no real calendar changes the clock on two consecutive days
-          /\ in = [lvl |-> lvl, zone |-> z, days |-> ds, obs |-> o]
+          \* prior: the zone whose identical instants were processed just before, in the same process (the outcome may not depend on it)
+          /\ in = [lvl |-> lvl, zone |-> z, days |-> ds, obs |-> o, prior |-> IF pr = "twin" THEN Twin[z] ELSE "none"]
   /\ out = [res |-> "pending"] /\ pc = "call" /\ lead = {}
 Call == /\ pc = "call"
         /\ LET o == IF in.lvl = "fn" THEN ICall(in.days)
